@@ -266,7 +266,10 @@ func (gb *gcpBalancer) initializeConfig(cfg *GCPBalancerConfig) {
 
 func (gb *gcpBalancer) enforceMinSize() {
 	for len(gb.scRefs) < int(gb.cfg.GetChannelPool().GetMinSize()) {
-		gb.addSubConn()
+		if !gb.addSubConn() {
+			// Creating a subconn failed, and it will fail again; do not spin.
+			return
+		}
 	}
 }
 
@@ -329,15 +332,16 @@ func (gb *gcpBalancer) newSubConn() {
 }
 
 // addSubConn creates a new SubConn using cc.NewSubConn and initialize the subConnRef.
+// Returns false if the SubConn could not be created.
 // Must be called holding the mutex lock.
-func (gb *gcpBalancer) addSubConn() {
+func (gb *gcpBalancer) addSubConn() bool {
 	sc, err := gb.cc.NewSubConn(
 		gb.addrs,
 		balancer.NewSubConnOptions{HealthCheckEnabled: healthCheckEnabled},
 	)
 	if err != nil {
 		gb.log.Errorf("failed to NewSubConn: %v", err)
-		return
+		return false
 	}
 	gb.scRefs[sc] = &subConnRef{
 		subConn:     sc,
@@ -347,6 +351,7 @@ func (gb *gcpBalancer) addSubConn() {
 	gb.scStates[sc] = connectivity.Idle
 	gb.scRefList = append(gb.scRefList, gb.scRefs[sc])
 	sc.Connect()
+	return true
 }
 
 // getReadySubConnRef returns a subConnRef and a bool. The bool indicates whether
